@@ -342,20 +342,31 @@ def op_catalogue(op: dict, log: EventLog, viol: list, stats: Counter) -> None:
         stats["catalogue_loud"] += 1
     else:
         stats["catalogue_exported"] += 1
-        for xs in prog.meta.get("input_sets", [prog.make_inputs(0)]):
-            try:
-                jx = oracle.jax_run(prog.fn, xs, None, prog.x64)
-            except Exception:
-                continue
-            try:
-                got = oracle.ort_run(model, xs)
+        loadable, lmsg = oracle.ort_loadable(model)
+        if not loadable:
+            # an export the runtime refuses to load is loud at load time, not a silently
+            # different model: C03's matter, no C16 verdict (counted and listed)
+            stats["catalogue_exported_unloadable"] += 1
+            verdict = "unloadable"
+        else:
+            for xs in prog.meta.get("input_sets", [prog.make_inputs(0)]):
+                try:
+                    jx = oracle.jax_run(prog.fn, xs, None, prog.x64)
+                except Exception:
+                    continue
+                try:
+                    got = oracle.ort_run(model, xs)
+                except Exception as e:
+                    stats["catalogue_runtime_error"] += 1
+                    verdict = f"runtime_error:{type(e).__name__}"
+                    break
                 ok, msg = oracle.compare(jx, got, rtol=prog.rtol, atol=prog.atol)
-            except Exception as e:
-                ok, msg = False, f"ort:{type(e).__name__}: {str(e)[:160]}"
-            verdict = ok
-            if not ok:
-                viol.append({"sig": f"C16|catalogue_silently_wrong|pid={pid}", "cls": "catalogue_silently_wrong", "detail": f"construct {pid} exported without error but the model disagrees with JAX on {[np_shape(x) for x in xs]}: {msg}", "replay_ops": [op]})
-                break
+                verdict = ok
+                if not ok:
+                    viol.append({"sig": f"C16|catalogue_silently_wrong|pid={pid}", "cls": "catalogue_silently_wrong", "detail": f"construct {pid} exported without error, loads and runs, but disagrees with JAX on {[np_shape(x) for x in xs]}: {msg}", "replay_ops": [op]})
+                    break
+            if verdict is True:
+                stats["catalogue_exported_correct"] += 1
     log.add(op="catalogue", pid=pid, raised=type(raised).__name__ if raised else None, correct=verdict)
 
 
@@ -494,7 +505,7 @@ def fixture_ids() -> list[str]:
 def catalogue_ids() -> list[str]:
     from sim.fixtures import ids
 
-    return ids("c16cat")
+    return ids("c16cat") + ids("c16var")
 
 
 def main(tier: str) -> int:
@@ -558,7 +569,8 @@ def main(tier: str) -> int:
                 "lower_fault_in_nested_body": stats.get("lower_fault_in_nested_body", 0),
                 "catalogue_entries": stats.get("catalogue_entries", 0),
                 "catalogue_loud": stats.get("catalogue_loud", 0),
-                "catalogue_exported_and_checked_correct": stats.get("catalogue_exported", 0),
+                "catalogue_exported_and_checked_correct": stats.get("catalogue_exported_correct", 0),
+                "catalogue_exported_but_runtime_refuses_to_load_or_run": stats.get("catalogue_exported_unloadable", 0) + stats.get("catalogue_runtime_error", 0),
                 "controls_invalid_no_validity_verdict": stats.get("controls_invalid", 0),
                 "controls_without_numeric_verdict": stats.get("controls_without_numeric_verdict", 0),
             },
